@@ -1,4 +1,5 @@
 import TexelVerif.BookBuild.LinkNew
+import TexelVerif.BookBuild.Sorted
 /-! # BookBuild: `addPos` (the model of `Book::addPosToBook`) preserves `FixedPoint` -/
 namespace Bk
 open Book
@@ -22,6 +23,29 @@ theorem foldl_peStep_skip (d : Nat) (nm : Int) (f f' : Nat × Nat → PInfo) (N 
       simp only [List.map_cons, List.foldl_cons, List.filter_cons, hne, if_true, h1 e (by simp) he]
       exact ih' _
 
+theorem sortedLinks_pushNew (b : Book) (key : Nat) (h : SortedLinks b) : SortedLinks (pushNew b key) := by
+  intro j
+  by_cases hj : j < b.size
+  · rw [nd_pushNew_old b key j hj]; exact h j
+  · by_cases hj2 : j = b.size
+    · subst hj2; rw [nd_pushNew_new]; exact ⟨List.Pairwise.nil, List.Pairwise.nil⟩
+    · rw [nd_oob _ _ (by rw [size_pushNew]; omega)]; exact ⟨List.Pairwise.nil, List.Pairwise.nil⟩
+
+theorem sortedLinks_foldl {α : Type} (f : Book → α → Book) (hf : ∀ a x, SortedLinks a → SortedLinks (f a x)) :
+    ∀ (l : List α) (a : Book), SortedLinks a → SortedLinks (l.foldl f a) := by
+  intro l
+  induction l with
+  | nil => intro a h; exact h
+  | cons x t ih => intro a h; exact ih _ (hf a x h)
+
+theorem sortedLinks_linkNew (b : Book) (key : Nat) (ps cs : List (Nat × Nat)) (h : SortedLinks b) :
+    SortedLinks (linkNew b key ps cs) := by
+  rw [linkNew_eq]
+  exact sortedLinks_foldl (fun (acc : Book) (e : Nat × Nat) => addLink acc e.2 e.1 b.size)
+    (fun a e ha => sortedLinks_addLink a e.2 e.1 b.size ha) cs _
+    (sortedLinks_foldl (fun (acc : Book) (e : Nat × Nat) => addLink acc b.size e.1 e.2)
+      (fun a e ha => sortedLinks_addLink a b.size e.1 e.2 ha) ps _ (sortedLinks_pushNew b key h))
+
 section addpos
 variable (b : Book) (key : Nat) (ps cs : List (Nat × Nat)) (r' : Nat → Nat) (hF : FixedPoint b) (hA : AddOk b ps cs r')
 
@@ -38,12 +62,13 @@ include hF hA in
 theorem addPos_preserves : FixedPoint (addPos true b key ps cs) := by
   have hS := hF.struct
   obtain ⟨hinv, hnf, hpaPs, hpaNe⟩ := linkNew_spec b key ps cs r' hS hA
+  have hsorted3 := sortedLinks_linkNew b key ps cs hS.sorted
   unfold addPos
   generalize linkNew b key ps cs = b3 at *
   have hsz := hnf.size
   have hold : ∀ j, j < b3.size → j ≠ b.size → j < b.size := by intro j hj hne; omega
   have hS3 : StructOk b3 := by
-    refine ⟨hinv.nonempty, hinv.wf, ⟨r', hinv.rk⟩, ⟨hinv.root.1, hinv.root.2, ?_⟩, ?_, hinv.par⟩
+    refine ⟨hinv.nonempty, hinv.wf, hsorted3, ⟨r', hinv.rk⟩, ⟨hinv.root.1, hinv.root.2, ?_⟩, ?_, hinv.par⟩
     · have := scal_fields (hnf.scalOld 0 hS.nonempty)
       have h0 := hS.root.2.2
       simp only [pe2, Prod.mk.injEq] at h0 ⊢
